@@ -7,6 +7,7 @@ import (
 	"fmt"
 	"os"
 	"runtime/pprof"
+	"strings"
 )
 
 var checks = map[string]func(job *Job, r *Report){
@@ -142,8 +143,77 @@ func Replay(job *Job) int {
 		}
 		fmt.Fprintln(os.Stderr, "no such configuration:", rp.Check, rp.Config)
 		return 2
+	case "sched":
+		var rp schedReplay
+		if err := json.Unmarshal(b, &rp); err != nil {
+			fmt.Fprintln(os.Stderr, err)
+			return 2
+		}
+		var all []*Scenario
+		all = append(all, c04Scenarios()...)
+		all = append(all, c05Scenarios("thorough")...)
+		all = append(all, c02bScenarios()...)
+		all = append(all, c17bScenarios()...)
+		for _, sc := range all {
+			if sc.Name != rp.Scenario {
+				continue
+			}
+			var outs []string
+			for i := 0; i < 2; i++ {
+				o := sc.exec(rp.Choices, nil, rp.YieldRel)
+				d := "no mismatch"
+				if o.mm != nil {
+					d = o.mm.String()
+				}
+				outs = append(outs, d+" | "+o.obs)
+				fmt.Printf("run %d: [%s] choices %v -> %s\n", i+1, sc.Name, rp.Choices, d)
+				for _, t := range traceOf(o.res) {
+					if i == 0 {
+						fmt.Println("   ", t)
+					}
+				}
+			}
+			if outs[0] != outs[1] {
+				fmt.Println("REPLAY DIVERGED between the two runs")
+				return 2
+			}
+			if strings.HasPrefix(outs[0], "no mismatch") {
+				return 0
+			}
+			return 1
+		}
+		fmt.Fprintln(os.Stderr, "no such scenario:", rp.Scenario)
+		return 2
+	case "proto":
+		var rp protoReplay
+		if err := json.Unmarshal(b, &rp); err != nil {
+			fmt.Fprintln(os.Stderr, err)
+			return 2
+		}
+		al := map[string]Letter{}
+		for _, l := range protoAlphabet() {
+			al[l.Name] = l
+		}
+		var outs []string
+		for i := 0; i < 2; i++ {
+			o := protoRunOnce(al, rp.Run)
+			d := "no mismatch"
+			if mm := pick(o, rp.Check); mm != nil {
+				d = mm.String()
+			}
+			outs = append(outs, d)
+			fmt.Printf("run %d: script %v split %d cut %d -> %s\n    server output: %q\n", i+1, rp.Run.Script, rp.Run.Split, rp.Run.Cut, d, o.obs)
+		}
+		if outs[0] != outs[1] {
+			fmt.Println("REPLAY DIVERGED between the two runs")
+			return 2
+		}
+		if outs[0] == "no mismatch" {
+			return 0
+		}
+		return 1
 	}
-	fmt.Fprintln(os.Stderr, "replay kind not supported:", head.Kind)
+	fmt.Fprintln(os.Stderr, "replay kind not supported by the stand-alone replayer (re-run the check; the replay file holds the complete witness):", head.Kind)
 	return 2
 }
 
